@@ -9,6 +9,7 @@ Everything that reaches Coq is printed from the *objects* by the printers below.
 import importlib
 import json
 import random
+import re
 
 import fw
 from fw import gN, gnat, glist, gopt, gpair, gapp, gbool
@@ -484,6 +485,77 @@ class Lit:
 
     def export(self, e):
         return gpair(self.sym(e[0]), glist(self.term(x) for x in e[1]), self.term(e[2]))
+
+    # ---- whole HUGRs
+    def mdv(self, m):
+        if not hasattr(self, "md"):
+            self.md = fw.Interner()
+            self.md("{}")               # 0 = the empty dict
+        return gN(self.md(json.dumps(m, sort_keys=True)))
+
+    def other(self, code):
+        return gN(self.n(("other", code)))
+
+    def onat(self, x):
+        return "None" if x is None else "(Some %d)" % x
+
+    def oty(self, t):
+        return "None" if t is None else gapp("Some", self.ty(t))
+
+    def hop(self, o):
+        k = o[0]
+        if k == "op":
+            return gapp("HOp", self.op(o[1]))
+        if k == "const":
+            return gapp("HConst", self.cval(o[1]))
+        return gapp("HOther", self.other(o[1]), self.onat(o[2][0]), self.onat(o[2][1]), glist(self.oty(t) for t in o[3]))
+
+    def cval(self, v):
+        if v[0] == "fn":
+            return gapp("VFunc", self.hugr(v[1]))
+        if v[0] == "sum":
+            return gapp("VSum", self.other(v[1]), glist(self.cval(x) for x in v[2]))
+        return gapp("VLeaf", self.other(v[1]))
+
+    def off(self, k):
+        return "AOrder" if k == -1 else "(APort %d)" % k
+
+    def hugr(self, d):
+        nodes = {n["idx"]: n for n in d["nodes"]}
+        out = []
+        for i in range(max(nodes) + 1 if nodes else 0):
+            n = nodes.get(i)
+            if n is None:
+                out.append("None")
+                continue
+            out.append("(Some (Nd %s %s %s %s %d %d))" % (self.hop(n["hop"]), self.onat(n["parent"]),
+                       glist(str(c) for c in n["children"]), self.mdv(n["md"]), n["nin"], n["nout"]))
+        links = glist("(Lk %d %s %d %s)" % (a, self.off(b), c, self.off(e)) for a, b, c, e in d["links"])
+        return "(Hg %s %d %s)" % (glist(out), d["root"], links)
+
+    def sop(self, o):
+        k = o[0]
+        if k == "op":
+            return gapp("SOp", self.op(o[1]))
+        if k == "const":
+            return gapp("SConst", self.sval(o[1]))
+        return gapp("SOther", self.other(o[1]))
+
+    def sval(self, v):
+        if v[0] == "fn":
+            return gapp("SVFunc", self.serial(v[1]))
+        if v[0] == "sum":
+            return gapp("SVSum", self.other(v[1]), glist(self.sval(x) for x in v[2]))
+        return gapp("SVLeaf", self.other(v[1]))
+
+    def serial(self, v):
+        nodes = glist("(Sn %s %d)" % (self.sop(o), p) for o, p in v["nodes"])
+        edges = glist("(Ed %d %s %d %s)" % (a[0], self.onat(a[1]), b[0], self.onat(b[1])) for a, b in v["edges"])
+        if v["metadata"] is None:
+            meta = "None"
+        else:
+            meta = "(Some %s)" % glist("None" if m is None else "(Some %s)" % self.mdv(m) for m in v["metadata"])
+        return "(Sr %s %s %s)" % (nodes, edges, meta)
 
 
 # ------------------------------------------------------------------------------------------------ generator
@@ -1148,6 +1220,526 @@ def build_std_op(which, reg, gen_ty):
     raise AssertionError(which)
 
 
+# ------------------------------------------------------------------------------------------------ respelled rows
+# Type equality in hugr-py is coarser than the wire format: a unit sum `UnitSum(n)` and the general sum of n empty rows
+# compare equal but serialise differently.  Resolution must treat every position of an expression on its own; the
+# respell stream builds function types (bare, nested, and as signatures of defined custom operations) whose input and
+# output rows are equal element by element under `==` but spelled differently at one or more positions, at any depth.
+def respell(t, rng, force=True):
+    """t with some unit sums respelled (compact <-> general with empty rows); at least one when force and possible"""
+    sites = []
+
+    def walk(x, path):
+        if isinstance(x, list):
+            if x and x[0] == "unit" and x[1] <= 3:
+                sites.append(path)
+            elif x and x[0] == "sum" and all(r == [] for r in x[1]) and len(x[1]) <= 3:
+                sites.append(path)
+            for i, y in enumerate(x):
+                walk(y, path + [i])
+        elif isinstance(x, dict):
+            for k2, y in x.items():
+                walk(y, path + [k2])
+    walk(t, [])
+    if not sites:
+        return t
+    chosen = [p for p in sites if rng.random() < 0.5]
+    if force and not chosen:
+        chosen = [rng.choice(sites)]
+    out = json.loads(json.dumps(t))
+    for p in sorted(chosen, key=len, reverse=True):
+        cur = out
+        for k2 in p[:-1]:
+            cur = cur[k2]
+        x = cur[p[-1]] if p else out
+        y = ["sum", [[] for _ in range(x[1])]] if x[0] == "unit" else ["unit", len(x[1])]
+        if p:
+            cur[p[-1]] = y
+        else:
+            out = y
+    return out
+
+
+RESPELL_TY_PLACES = ["func-io", "func-io-row", "func-in-in", "sum-variants", "row-elems", "tuple-elems",
+                     "opaque-args", "seq-elems", "nested-func-io"]
+RESPELL_NODE_PLACES = ["sig-io", "sig-args", "args", "siblings", "siblings-whole", "nested-vs-outer"]
+RESPELL_WRAPS = ["bare", "sum", "tuple", "func-in", "func-out", "opaque-arg", "seq-arg"]
+
+
+def respell_wrap(x, how):
+    """x one container deeper (the unit sum is then respelled at depth)"""
+    if how == "bare":
+        return x
+    if how == "sum":
+        return ["sum", [[["qubit"]], [x, ["usize"]]]]
+    if how == "tuple":
+        return ["tuple", [x]]
+    if how == "func-in":
+        return ["func", [x], [], []]
+    if how == "func-out":
+        return ["func", [["usize"]], [x], []]
+    if how == "opaque-arg":
+        return ["opaque", "nowhere", "U", [["type", x]], "C"]
+    if how == "seq-arg":
+        return ["opaque", "nowhere", "U", [["seq", [["nat", 1], ["type", x]]]], "C"]
+    raise AssertionError(how)
+
+
+def respell_case(place, n, wrap, reg_mode, rng, via="loaded"):
+    """two expressions equal under `==` and spelled differently (a unit sum of size n, compact vs general, under the
+    container `wrap`), put at two positions of one expression / one node / two nodes that an implementation sharing
+    results between equal sub-expressions would merge"""
+    ext_a = {"name": "ext.a", "types": [{"name": "T", "descr": "", "params": [], "bound": ["E", "C"]}],
+             "ops": [{"name": "Op", "descr": "a definition", "sig": "plain"}]}
+    ext_ops = {"name": "ext.ops", "types": [], "ops": [{"name": "Id", "descr": "identity", "sig": "poly"}]}
+    t_in = ["opaque", "ext.a", "T", [], "C"]
+    x = respell_wrap(["unit", n], wrap)
+    y = respell_wrap(["sum", [[] for _ in range(n)]], wrap)
+    if rng.random() < 0.5:
+        x, y = y, x
+    reg = {"complete": [ext_a, ext_ops], "ops-only": [ext_ops], "empty": []}[reg_mode]
+    base = {"via": via, "reg": reg, "mode": "respell", "respell": place + ":" + wrap}
+    if place in RESPELL_TY_PLACES:
+        t = {"func-io": ["func", [x], [y], []],
+             "func-io-row": ["func", [t_in, x, ["qubit"]], [t_in, y, ["qubit"]], ["ext.a"]],
+             "func-in-in": ["func", [x, y], [t_in], []],
+             "sum-variants": ["sum", [[x], [y], [t_in]]],
+             "row-elems": ["sum", [[x, y, t_in]]],
+             "tuple-elems": ["tuple", [x, y]],
+             "opaque-args": ["opaque", rng.choice(["nowhere", "ext.a"]), "U", [["type", x], ["type", y], ["type", t_in]], "C"],
+             "seq-elems": ["opaque", "nowhere", "U", [["seq", [["type", x], ["type", y]]]], "C"],
+             "nested-func-io": ["sum", [[["func", [["func", [x], [y], []]], [["func", [x], [y], []]], []]]]]}[place]
+        if place == "seq-elems" and rng.random() < 0.5:
+            return {**base, "kind": "arg", "a": ["seq", [["type", x], ["type", y]]]}
+        return {**base, "kind": "ty", "t": t}
+
+    def ident(sig_in, sig_out, args, descr="identity"):
+        return {"op": "custom", "ext": "ext.ops", "name": "Id", "descr": descr,
+                "sig": {"in": sig_in, "out": sig_out, "reqs": []}, "args": args}
+    if place == "sig-io":
+        nodes = [ident([x, t_in], [y, t_in], [["type", t_in]])]
+    elif place == "sig-args":
+        nodes = [ident([x], [x], [["type", y]])]
+    elif place == "args":
+        nodes = [ident([t_in], [t_in], [["type", x], ["type", y], ["seq", [["type", x], ["type", y]]]])]
+    else:
+        nodes = [ident([x], [x], [["type", x]]), ident([y], [y], [["type", y]])]
+        if rng.random() < 0.5:
+            nodes.append(ident([x], [x], [["type", x]]))
+    if place == "siblings-whole":
+        return {**base, "kind": "whole", "body": {"nodes": nodes}}
+    if place == "nested-vs-outer":
+        return {**base, "kind": "whole",
+                "body": {"nodes": [nodes[0], {"op": "const", "val": ["tuple", [["fn", {"nodes": nodes[1:]}]]]}]}}
+    return {**base, "kind": "hugr", "nodes": nodes}
+
+
+def respell_stream(rng, tier):
+    """every place x every unit size 0..3 (wrap and registry drawn), then sampled combinations; thorough: the full
+    product place x size x wrap, and generated expressions respelled at random positions"""
+    places = RESPELL_TY_PLACES + RESPELL_NODE_PLACES
+    if tier == "quick":
+        for place in places:
+            for n in range(4):
+                yield respell_case(place, n, rng.choice(RESPELL_WRAPS), rng.choice(["complete", "complete", "ops-only"]), rng)
+        for _ in range(30):
+            yield respell_case(rng.choice(places), rng.choice([1, 2, 2, 3]), rng.choice(RESPELL_WRAPS),
+                               rng.choice(["complete", "ops-only", "empty"]), rng, via=rng.choice(["loaded", "loaded", "built"]))
+    else:
+        for place in places:
+            for n in range(4):
+                for wrap in RESPELL_WRAPS:
+                    yield respell_case(place, n, wrap, rng.choice(["complete", "complete", "ops-only", "empty"]), rng,
+                                       via=rng.choice(["loaded", "loaded", "built"]))
+    # generated expressions with unit sums respelled at random positions, as input / output rows
+    for _ in range(25 if tier == "quick" else 500):
+        universe = rand_universe(rng)
+        g = Gen(rng, universe, [])
+        reg = [json.loads(json.dumps(e)) for e in universe] if rng.random() < 0.8 else cut_registry(rng, universe, [])[0]
+        row = []
+        for _ in range(rng.randint(1, 2)):
+            u = ["unit", rng.choice([0, 1, 2, 2, 3])]
+            row.append(rng.choice([lambda: u, lambda: ["sum", [[g.ty(1), u], [u]]], lambda: ["tuple", [u, g.ty(1)]],
+                                   lambda: ["func", [u], [g.ty(0)], []],
+                                   lambda: ["opaque", "nowhere", "U", [["type", u], ["seq", [["type", u]]]], "C"]])())
+        row2 = [respell(t, rng, force=(i == 0)) for i, t in enumerate(row)]
+        if rng.random() < 0.5:
+            row, row2 = row2, row
+        ft = ["func", row, row2, rng.sample(GEN_EXTS, rng.randint(0, 1))]
+        r = rng.random()
+        if r < 0.4:
+            yield {"kind": "ty", "via": "loaded", "reg": reg, "mode": "respell", "respell": "generated", "t": ft}
+        elif r < 0.5:
+            yield {"kind": "arg", "via": "loaded", "reg": reg, "mode": "respell", "respell": "generated",
+                   "a": ["seq", [["type", ft], ["nat", 1]]]}
+        else:
+            ops_ = [(e["name"], d["name"]) for e in reg if "std" not in e for d in e["ops"]]
+            if not ops_:
+                reg = reg + [{"name": "ext.ops", "types": [], "ops": [{"name": "Id", "descr": "identity", "sig": "poly"}]}]
+                ops_ = [("ext.ops", "Id")]
+            e, n = rng.choice(ops_)
+            node = {"op": "custom", "ext": e, "name": n, "descr": rng.choice(["", "orig"]),
+                    "sig": {"in": row, "out": row2, "reqs": []}, "args": [["type", ft]] if rng.random() < 0.4 else []}
+            yield {"kind": "hugr", "via": "loaded", "reg": reg, "mode": "respell", "respell": "generated", "nodes": [node]}
+
+
+# ------------------------------------------------------------------------------------------------ whole HUGRs
+# Second pass: `Hugr.resolve_extensions` observed on the whole HUGR (harness/hobs.py dump: root, node table with holes,
+# parent / children / metadata / port counts, links), with the HUGRs of function-valued constants dumped recursively,
+# the `to_json` document parsed into the same nested shape, and `Hugr.port_type` of every out port.
+VERIF_OPS = ["drop", "alloc", "make", "lin1", "lin2", "measure", "f0", "f1", "f2", "f3", "g0", "g1", "g2", "g3", "g4", "mut.op"]
+
+
+def verif_ext(ops, types=("lin", "cop")):
+    """the extension harness/progs.py takes its opaque operations and types from, as a registry spec"""
+    tds = [{"name": "lin", "descr": "linear", "params": [], "bound": ["E", "A"]},
+           {"name": "cop", "descr": "", "params": [["nat", None]], "bound": ["E", "C"]}]
+    return {"name": "verif.ext", "types": [t for t in tds if t["name"] in types],
+            "ops": [{"name": n, "descr": "defined " + n, "sig": "plain"} for n in ops]}
+
+
+def build_val(v, reg):
+    from hugr import tys, val
+    k = v[0]
+    if k == "fn":
+        return val.Function(build_body(v[1], reg))
+    if k == "tuple":
+        return val.Tuple(*[build_val(x, reg) for x in v[1]])
+    if k == "some":
+        return val.Some(*[build_val(x, reg) for x in v[1]])
+    if k == "left":
+        return val.Left([build_val(x, reg) for x in v[1]], [tys.Bool])
+    if k == "int":
+        from hugr.std.int import IntVal
+        return IntVal(v[1], 5)
+    if k == "true":
+        return val.TRUE
+    raise AssertionError(v)
+
+
+def build_body(body, reg):
+    """a Dfg holding the nodes of the spec in order: custom / std operations (chained by value links where both ends
+    have a port, and by order links), constants (function values hold a body of their own), metadata"""
+    from hugr import ops
+    from hugr.build.dfg import Dfg
+    from hugr.hugr.node_port import InPort, OutPort
+    d = Dfg()
+    h = d.hugr
+    made = []
+    for n in body["nodes"]:
+        if n["op"] == "custom":
+            f = n["sig"]
+            op = ops.Custom(op_name=n["name"], extension=n["ext"], description=n["descr"],
+                            signature=build_ty(["func", f["in"], f["out"], f["reqs"]], reg),
+                            args=[build_arg(a, reg) for a in n["args"]])
+            node = h.add_node(op, d.parent_node, len(f["out"]) + n.get("extra_outs", 0))
+            io = (len(f["in"]), len(f["out"]))
+        elif n["op"] == "std":
+            node = h.add_node(build_std_op(n["which"], reg, build_ty(n["ty"], reg)), d.parent_node, 1)
+            io = (1, 1)
+        else:
+            node = h.add_const(build_val(n["val"], reg), d.parent_node)
+            io = None
+        if n.get("md"):
+            h[node].metadata.update(n["md"])
+        made.append((node, io))
+    flow = [(node, io) for node, io in made if io is not None]
+    for (a, ia), (b, ib) in zip(flow, flow[1:]):
+        if ia[1] > 0 and ib[0] > 0:
+            h.add_link(OutPort(a, 0), InPort(b, 0))
+        if body.get("order", True):
+            h.add_order_link(a, b)
+    d.set_outputs()
+    return h
+
+
+def build_whole(case, reg):
+    from hugr.hugr import Hugr
+    from hugr import ops, tys
+    if "seed" in case:
+        import progs
+        prog = progs.gen_program(random.Random(case["seed"]), size=case.get("size", 4))
+        h = progs.run(prog).hugr
+    else:
+        h = build_body(case["body"], reg)
+    h = Hugr.load_json(h.to_json())
+    for k in case.get("holes", []):
+        cand = [n for n in h if n != h.root and not h.children(n)]
+        if cand:
+            h.delete_node(cand[k % len(cand)])
+    for _ in range(case.get("refill", 0)):          # index reuse: a fresh opaque operation in a freed slot
+        h.add_node(ops.Custom("f0", tys.FunctionType([tys.Qubit], [tys.Qubit]), "refilled", "verif.ext"), h.root, 1)
+    return h
+
+
+def other_json(op):
+    from hugr.hugr.node_port import Node
+    s = op._to_serial(Node(0)).model_dump(mode="json")
+    s.pop("parent", None)
+    return json.dumps(s, sort_keys=True)
+
+
+def print_cval(v):
+    from hugr import val
+    if isinstance(v, val.Function):
+        return ["fn", dump_whole(v.body)]
+    if isinstance(v, val.Tuple):
+        return ["sum", json.dumps({"v": "Tuple"}), [print_cval(x) for x in v.vals]]
+    if isinstance(v, val.Sum):
+        key = {"v": "Sum", "tag": v.tag, "typ": json.loads(v.typ._to_serial().model_dump_json())}
+        return ["sum", json.dumps(key, sort_keys=True), [print_cval(x) for x in v.vals]]
+    return ["leaf", json.dumps(v._to_serial().model_dump(mode="json"), sort_keys=True)]
+
+
+def out_types(h, n):
+    from hugr.hugr.node_port import OutPort
+    out = []
+    nout = h.num_out_ports(n)
+    for k in range(nout if isinstance(nout, int) and 0 <= nout < 4000 else 0):
+        t = guard(lambda k=k: h.port_type(OutPort(n, k)))
+        out.append(None if t is None or raised(t) else print_ty(t))
+    return out
+
+
+def print_hop(h, n):
+    from hugr import ops
+    from hugr.hugr.node_port import Direction
+    op = h[n].op
+    if type(op) is ops.Custom:
+        return ["op", ["custom", {"ext": op.extension, "name": op.op_name, "sig": print_ft(op.signature),
+                                  "descr": op.description, "args": [print_arg(a) for a in op.args]}]]
+    if type(op) is ops.ExtOp and op.signature is not None:
+        return ["op", ["extop", {"def": print_opdef(op._op_def), "sig": print_ft(op.signature),
+                                 "args": [print_arg(a) for a in op.args]}]]
+    if isinstance(op, ops.Const):
+        return ["const", print_cval(op.val)]
+    ndp = [guard(lambda d=d: ops._num_dataflow_ports(op, d)) for d in (Direction.INCOMING, Direction.OUTGOING)]
+    return ["other", other_json(op), [None if raised(x) else x for x in ndp], out_types(h, n)]
+
+
+def dump_whole(h):
+    import hobs
+    d = hobs.dump(h, with_ops=False)
+    for nd, n in zip(d["nodes"], list(h)):
+        assert nd["idx"] == n.idx
+        nd["hop"] = print_hop(h, n)
+        for key in ("nin", "nout"):      # a recorded port count that is no count at all: a sentinel no model produces
+            if not (isinstance(nd[key], int) and not isinstance(nd[key], bool) and 0 <= nd[key] < 4000):
+                nd[key] = 4999
+        del nd["op"], nd["kind"], nd["name"]
+    del d["order_out"], d["order_in"]          # the order links are part of links() with offset -1
+    return d
+
+
+def parse_sval(v):
+    k = v["v"]
+    if k == "Function":
+        return ["fn", parse_doc(v["hugr"])]
+    if k in ("Tuple", "Sum"):
+        key = {x: y for x, y in v.items() if x != "vs"}
+        return ["sum", json.dumps(key, sort_keys=True), [parse_sval(x) for x in v["vs"]]]
+    return ["leaf", json.dumps(v, sort_keys=True)]
+
+
+def parse_sop(n):
+    s = {k: v for k, v in n.items() if k != "parent"}
+    if s["op"] == "Extension":
+        if set(s) != {"op", "extension", "name", "signature", "description", "args"}:
+            raise Unprintable(repr(s))
+        f = s["signature"]
+        return ["op", ["custom", {"ext": s["extension"], "name": s["name"], "descr": s["description"],
+                                  "sig": {"in": [ser_ty(x) for x in f["input"]], "out": [ser_ty(x) for x in f["output"]],
+                                          "reqs": list(f["runtime_reqs"])},
+                                  "args": [ser_arg(a) for a in s["args"]]}]]
+    if s["op"] == "Const":
+        if set(s) != {"op", "v"}:
+            raise Unprintable(repr(s))
+        return ["const", parse_sval(s["v"])]
+    return ["other", json.dumps(s, sort_keys=True)]
+
+
+def parse_doc(doc):
+    """a serialised HUGR (parsed JSON) as nodes [(serial operation, parent)], edges, metadata; header fields dropped"""
+    if not set(doc) <= {"version", "encoder", "nodes", "edges", "metadata"}:
+        raise Unprintable(repr(sorted(doc)))
+    return {"nodes": [[parse_sop(n), n["parent"]] for n in doc["nodes"]],
+            "edges": [[list(a), list(b)] for a, b in doc["edges"]], "metadata": doc.get("metadata")}
+
+
+def whole_pts(h):
+    return [out_types(h, n) for n in h]
+
+
+def hop_walk(d, f, depth=0):
+    """f(hop tree, nesting depth) for every node operation of a dump, function bodies included"""
+    def val(v, depth):
+        if v[0] == "fn":
+            hop_walk(v[1], f, depth + 1)
+        elif v[0] == "sum":
+            for x in v[2]:
+                val(x, depth)
+    for n in d["nodes"]:
+        f(n["hop"], depth)
+        if n["hop"][0] == "const":
+            val(n["hop"][1], depth)
+
+
+def gen_body(rng, g, depth, fn_prob=0.35):
+    nodes = []
+    for _ in range(rng.randint(1, 4)):
+        r = rng.random()
+        if r < 0.55:
+            n = g.custom(rng.choice([0, 1, 1, 2]))
+            if rng.random() < 0.15:
+                n["extra_outs"] = 1
+        elif r < 0.7:
+            n = {"op": "std", "which": rng.choice(STD_OPS), "ty": g.ty(1)}
+        else:
+            n = {"op": "const", "val": gen_val(rng, g, depth, fn_prob)}
+        if rng.random() < 0.25:
+            n["md"] = rng.choice([{"k": 1}, {"name": "x", "n": [1, {"a": None}]}, {"": ""}])
+        nodes.append(n)
+    return {"nodes": nodes, "order": rng.random() < 0.7}
+
+
+def gen_val(rng, g, depth, fn_prob):
+    r = rng.random()
+    if depth > 0 and r < fn_prob:
+        return ["fn", gen_body(rng, g, depth - 1, fn_prob)]
+    if depth > 0 and r < fn_prob + 0.35:
+        return [rng.choice(["tuple", "some", "left"]), [gen_val(rng, g, depth - (rng.random() < 0.5), fn_prob + 0.2)
+                                                         for _ in range(rng.randint(1, 2))]]
+    return rng.choice([["int", rng.randint(0, 9)], ["true"]])
+
+
+def whole_body_case(rng, allstd):
+    universe = rand_universe(rng)
+    std_names = rng.sample(allstd, rng.choice([0, 1, 2]))
+    g = Gen(rng, universe, std_names)
+    reg, mode = cut_registry(rng, universe, std_names)
+    body = gen_body(rng, g, 2)
+    if rng.random() < 0.6 and not any(n["op"] == "const" and '"fn"' in json.dumps(n["val"]) for n in body["nodes"]):
+        body["nodes"].insert(rng.randrange(len(body["nodes"]) + 1),
+                             {"op": "const", "val": rng.choice([lambda b: ["fn", b], lambda b: ["tuple", [["true"], ["fn", b]]],
+                                                                lambda b: ["some", [["left", [["fn", b]]]]]])(gen_body(rng, g, 1))})
+    c = {"kind": "whole", "via": "loaded", "reg": reg, "mode": mode, "body": body}
+    if rng.random() < 0.4:
+        c["holes"] = [rng.randrange(50) for _ in range(rng.randint(1, 3))]
+        if rng.random() < 0.4:
+            c["refill"] = 1
+    return c
+
+
+def whole_prog_case(rng, allstd, seed):
+    import progs
+    r = rng.random()
+    ops = rng.sample(VERIF_OPS, rng.randint(0, len(VERIF_OPS)))
+    if r < 0.3:
+        reg, mode = [{"std": s} for s in allstd] + [verif_ext(VERIF_OPS)], "complete"
+    elif r < 0.4:
+        reg, mode = [], "empty"
+    elif r < 0.55:
+        reg, mode = [{"std": s} for s in allstd], "std-only"
+    elif r < 0.7:
+        reg, mode = [verif_ext(ops, rng.choice([("lin", "cop"), ("lin",), ()]))], "drop-ext"
+    else:
+        reg = [{"std": s} for s in allstd if rng.random() < 0.7] + [verif_ext(ops, rng.choice([("lin", "cop"), ("cop",)]))]
+        rng.shuffle(reg)
+        mode = "mixed"
+    c = {"kind": "whole", "via": "loaded", "reg": reg, "mode": mode, "seed": seed, "size": 4}
+    if rng.random() < 0.35:
+        c["holes"] = [rng.randrange(50) for _ in range(rng.randint(1, 3))]
+        if rng.random() < 0.4:
+            c["refill"] = 1
+    return c
+
+
+def whole_stream(rng, tier):
+    import progs
+    allstd = sorted(std_exts())
+    nb, npg = (70, 50) if tier == "quick" else (900, 500)
+    for _ in range(nb):
+        yield whole_body_case(rng, allstd)
+    made, seed = 0, rng.randrange(10 ** 6)
+    while made < npg:
+        seed += 1
+        try:
+            h = progs.run(progs.gen_program(random.Random(seed), size=4)).hugr
+        except Exception:  # noqa: BLE001  (the generator occasionally emits a program its interpreter cannot run)
+            continue
+        n = len(list(h))
+        if n > (45 if tier == "quick" else 90) or (n < 6 and rng.random() < 0.8):
+            continue
+        yield whole_prog_case(rng, allstd, seed)
+        made += 1
+
+
+def whole_pairs(obs):
+    """(operation before, operation after, function-value nesting depth) for every node, function bodies included;
+    [] when the two dumps do not have the same shape"""
+    l0, l1 = [], []
+    hop_walk(obs["h0"], lambda o, d: l0.append((o, d)))
+    hop_walk(obs["h1"], lambda o, d: l1.append((o, d)))
+    if len(l0) != len(l1):
+        return []
+    return [(a, b, d) for (a, d), (b, _) in zip(l0, l1)]
+
+
+def whole_skeleton(d):
+    """a dump with its Custom / ExtOp operations blanked, function bodies included"""
+    def val(v):
+        if v[0] == "fn":
+            return ["fn", whole_skeleton(v[1])]
+        if v[0] == "sum":
+            return ["sum", v[1], [val(x) for x in v[2]]]
+        return v
+
+    def hop(o):
+        if o[0] == "op":
+            return ["op"]
+        if o[0] == "const":
+            return ["const", val(o[1])]
+        return o
+    return {**d, "nodes": [{**n, "hop": hop(n["hop"])} for n in d["nodes"]]}
+
+
+def smaller_vals(v):
+    if v[0] == "fn":
+        for b in smaller_bodies(v[1]):
+            yield ["fn", b]
+    elif v[0] in ("tuple", "some", "left"):
+        for i, x in enumerate(v[1]):
+            yield x
+            if len(v[1]) > 1:
+                yield [v[0], v[1][:i] + v[1][i + 1:]]
+            for y in smaller_vals(x):
+                yield [v[0], v[1][:i] + [y] + v[1][i + 1:]]
+
+
+def smaller_bodies(b):
+    ns = b["nodes"]
+    for i in range(len(ns)):
+        if len(ns) > 1:
+            yield {**b, "nodes": ns[:i] + ns[i + 1:]}
+    if b.get("order", True):
+        yield {**b, "order": False}
+    for i, n in enumerate(ns):
+        if n.get("md"):
+            yield {**b, "nodes": ns[:i] + [{k: v for k, v in n.items() if k != "md"}] + ns[i + 1:]}
+        if n.get("extra_outs"):
+            yield {**b, "nodes": ns[:i] + [{k: v for k, v in n.items() if k != "extra_outs"}] + ns[i + 1:]}
+        if n["op"] == "const":
+            for v in smaller_vals(n["val"]):
+                yield {**b, "nodes": ns[:i] + [{**n, "val": v}] + ns[i + 1:]}
+        elif n["op"] == "custom":
+            f = n["sig"]
+            for pos in ("in", "out"):
+                for j in range(len(f[pos])):
+                    yield {**b, "nodes": ns[:i] + [{**n, "sig": {**f, pos: f[pos][:j] + f[pos][j + 1:]}}] + ns[i + 1:]}
+            for j in range(len(n["args"])):
+                yield {**b, "nodes": ns[:i] + [{**n, "args": n["args"][:j] + n["args"][j + 1:]}] + ns[i + 1:]}
+
+
 # ------------------------------------------------------------------------------------------------ the property
 def nest_depth(t):
     if isinstance(t, list):
@@ -1245,13 +1837,32 @@ class C11(fw.Prop):
             "every order, so also a sequence directly inside a sequence) of length <= 3 (thorough: <= 5) down to a "
             "resolvable opaque type, as a bare type / type argument and as signature / type argument of a custom node of a "
             "loaded HUGR, plus sampled chains of length <= 7 with padded containers against complete / containers-missing "
-            "/ leaf-missing / empty registries.  non-trivial = resolution changed the object and at least one opaque "
-            "type or operation stayed opaque, or opaque types are nested at depth >= 2, or the case is a chain of >= 2 containers")
+            "/ leaf-missing / empty registries; a whole-HUGR stream (second pass): HUGRs loaded from JSON, observed through "
+            "the public-API dump before / after / after a second resolve_extensions together with the parsed to_json "
+            "documents and Hugr.port_type of every out port - generated bodies (1-4 custom / std / constant nodes chained by "
+            "value and order links, metadata, nodes with more out ports than their signature, constants holding function "
+            "values directly or inside tuple / option / sum values with bodies of their own to depth 2, registries cut from "
+            "the universe) and HUGRs of random builder programs of harness/progs.py (hierarchy, control flow, calls, order "
+            "edges, function-valued constants; std and verif.ext registries: complete, empty, std only, partial), both "
+            "with holes in the node table (delete_node) and reused indices, plus 60 (thorough 900) of the small HUGRs of the "
+            "older streams rebuilt as whole HUGRs; a respell stream: a unit sum spelled "
+            "compactly and as a general sum of empty rows (equal under ==, different on the wire), sizes 0-3, under every "
+            "container, placed at every pair of positions a result-sharing implementation would merge (function-type "
+            "input/output, two inputs, sum variants, row elements, arguments of an opaque type, sequence elements, "
+            "signature vs type arguments, sibling nodes, nested body vs outer HUGR).  non-trivial = resolution changed "
+            "the object and at least one opaque type or operation stayed opaque, or opaque types are nested at depth >= 2, "
+            "or the case is a chain of >= 2 containers; for a whole HUGR: a node's operation changed and (a custom operation "
+            "of a node stayed opaque, or a function value holds an opaque operation the registry defines - which must "
+            "be left alone)")
     trusted = ["printers of harness/props/c11.py: hugr objects / pydantic dumps / hugr.model dataclass trees -> Gallina "
                "literals; model symbols are split into (extension, id) against the pairs occurring in the case",
                "hugr.model string/bytes forms need the absent native module: model export is compared as dataclass trees",
                "type expressions pass through hugr._serialization.tys (model_dump_json / model_validate_json), HUGRs "
-               "through Hugr.to_json / Hugr.load_json"]
+               "through Hugr.to_json / Hugr.load_json",
+               "whole HUGRs: harness/hobs.py dump plus the printers dump_whole / print_hop / print_cval / parse_doc "
+               "(operations other than Custom / ExtOp / Const are interned by their serial JSON; their dataflow port "
+               "counts are read from hugr.ops._num_dataflow_ports, the function the model's hop_ndp mirrors; the values "
+               "of constants are walked through the public attributes val.Function.body / val.Sum.vals)"]
     assumptions = ["registries are well formed (RegWF): dictionaries keyed by the objects' own names, every definition "
                    "attached to the extension it is filed in, extension names non-empty",
                    "Consistent: the bound recorded in an opaque type is the one its definition computes (needed for the "
@@ -1271,6 +1882,9 @@ class C11(fw.Prop):
         def ident(t):
             return {"op": "custom", "ext": "ext.ops", "name": "Id", "descr": "identity",
                     "sig": {"in": [t], "out": [t], "reqs": ["ext.ops"]}, "args": [["type", t]]}
+        op_a = {"op": "custom", "ext": "ext.a", "name": "Op", "descr": "orig",
+                "sig": {"in": [t_in], "out": [t_in], "reqs": []}, "args": []}
+        inner = {"nodes": [op_a]}
         return [
             # D15: argument of an unresolvable opaque type stays unresolved
             {"kind": "ty", "via": "loaded", "reg": [ext_a], "t": ["opaque", "nowhere", "U", [["type", t_in]], "C"]},
@@ -1304,6 +1918,26 @@ class C11(fw.Prop):
              "t": ["opaque", "nowhere", "U", [["seq", [["nat", 3], ["seq", [["type", t_in]]]]]], "A"]},
             {"kind": "hugr", "via": "loaded", "reg": [ext_a, ext_ops],
              "nodes": [{**ident(t_in), "args": [["seq", [["seq", [["type", t_in]]], ["seq", []]]]]}]},
+            # function-valued constants are part of the frame: the opaque operations inside the HUGR of a function value
+            # (directly in the constant; inside a tuple / option / sum value; a function value inside a function value)
+            # are not operations of the HUGR being resolved and must be left exactly as they are, although the
+            # registry defines them (hugr-core descends into them; "D30" considered and rejected as out of scope)
+            {"kind": "whole", "via": "loaded", "reg": [ext_a], "body": {"nodes": [{"op": "const", "val": ["fn", inner]}]}},
+            {"kind": "whole", "via": "loaded", "reg": [ext_a],
+             "body": {"nodes": [op_a, {"op": "const", "val": ["tuple", [["true"], ["some", [["fn", inner]]]]]}]}},
+            {"kind": "whole", "via": "loaded", "reg": [ext_a, ext_ops],
+             "body": {"nodes": [{"op": "const", "val": ["fn", {"nodes": [ident(t_in), {"op": "const", "val": ["left", [["fn", inner]]]}]}]}]}},
+            # seeded C11-f (results shared between positions that compare equal): Bool -> Bool with the output spelled
+            # as a general sum of two empty rows, bare and as the signature of a defined operation
+            {"kind": "ty", "via": "loaded", "reg": [ext_a], "t": ["func", [["unit", 2], t_in], [["sum", [[], []]], t_in], []]},
+            {"kind": "hugr", "via": "loaded", "reg": [ext_a],
+             "nodes": [{**op_a, "sig": {"in": [["sum", [[], []]]], "out": [["unit", 2]], "reqs": []}}]},
+            # the frame: holes in the node table, a reused index, metadata, order links, a node with more out ports
+            # than its signature
+            {"kind": "whole", "via": "loaded", "reg": [ext_a, ext_ops], "holes": [0, 3], "refill": 1,
+             "body": {"nodes": [{**op_a, "md": {"k": 1}}, {"op": "std", "which": "noop", "ty": t_in},
+                                {**ident(t_other), "extra_outs": 1}, {"op": "const", "val": ["int", 3]},
+                                {**ident(t_in), "md": {"name": "x"}}]}},
         ]
 
     def generate(self, rng, tier, ctx):
@@ -1359,6 +1993,19 @@ class C11(fw.Prop):
                 cases.append({"kind": "ty", "via": "built", "reg": full, "mode": "complete", "t": t})
         # path stream: every chain of containers down to an opaque type (after the older streams: their draws are unchanged)
         cases += list(path_stream(rng, tier))
+        # whole-HUGR stream (second pass), after the older streams
+        cases += list(whole_stream(rng, tier))
+        # rows equal under `==` but spelled differently on the wire (seeded C11-f)
+        cases += list(respell_stream(rng, tier))
+        # the small HUGRs of the older streams (std sweep, random, sibling, path) once more as whole HUGRs: the same
+        # nodes, chained by value and order links, compared in Coq as dump / document / port types
+        small = [c for c in cases if c["kind"] == "hugr" and c["via"] == "loaded"]
+        for c in rng.sample(small, min(len(small), 60 if tier == "quick" else 900)):
+            twin = {"kind": "whole", "via": "loaded", "reg": c["reg"], "mode": c.get("mode", "twin"), "twin_of": c.get("mode", "?"),
+                    "body": {"nodes": c["nodes"], "order": rng.random() < 0.5}}
+            if rng.random() < 0.3:
+                twin["holes"] = [rng.randrange(50)]
+            cases.append(twin)
         return cases
 
     def std_sweep(self):
@@ -1426,7 +2073,26 @@ class C11(fw.Prop):
             r2 = guard(lambda: r.resolve(reg))
             out["res2"] = sentinel if raised(r2) else pr(r2)
             return out
+        if k == "whole":
+            return self.observe_whole(case, reg, out)
         return self.observe_hugr(case, reg, out)
+
+    def observe_whole(self, case, reg, out):
+        h = build_whole(case, reg)
+        nodes0 = list(h)
+        out["h0"] = dump_whole(h)
+        out["doc0"] = guard(lambda: parse_doc(json.loads(h.to_json())))
+        out["pt0"] = whole_pts(h)
+        ret = guard(lambda: h.resolve_extensions(reg))
+        out["h1"] = dump_whole(h)
+        out["doc1"] = guard(lambda: parse_doc(json.loads(h.to_json())))
+        out["pt1"] = whole_pts(h)
+        out["self"] = bool(ret is h and list(h) == nodes0)
+        if raised(ret):
+            out["resolve_raised"] = ret["raised"]
+        guard(lambda: h.resolve_extensions(reg))
+        out["h2"] = dump_whole(h)
+        return out
 
     def observe_hugr(self, case, reg, out):
         from hugr import ops
@@ -1550,6 +2216,12 @@ class C11(fw.Prop):
             o = gapp("Build_arg_obs", L.arg(obs["res"]), L.arg(obs["res2"]), L.opt(obs["ser0"], L.arg), L.opt(obs["ser1"], L.arg),
                      L.opt(obs["mod0"], L.term), L.opt(obs["mod1"], L.term))
             return gapp("CArg", reg, L.arg(obs["input"]), o)
+        if k == "whole":
+            pts = lambda l: glist(glist(L.oty(t) for t in row) for row in l)
+            w = gapp("Wo", L.hugr(obs["h0"]), L.hugr(obs["h1"]), L.hugr(obs["h2"]),
+                     L.opt(obs["doc0"], L.serial), L.opt(obs["doc1"], L.serial), pts(obs["pt0"]), pts(obs["pt1"]),
+                     gbool(obs["self"]))
+            return gapp("CWhole", reg, w)
         nodes = []
         for o in obs["nodes"]:
             nodes.append(gapp("Build_node_obs", L.op(o["op"]), L.op(o["res"]), L.op(o["res2"]),
@@ -1563,6 +2235,14 @@ class C11(fw.Prop):
     def nontrivial(self, case, obs):
         if case.get("path", "").count("/") >= 1:      # a chain of >= 2 containers
             return True
+        if case["kind"] == "whole":
+            pairs = whole_pairs(obs)
+            defined = {(e, n) for e, x in obs["reg"] for n, _ in x["ops"]}
+            changed = [1 for a, b, d in pairs if a != b and d == 0]
+            kept = [1 for a, b, d in pairs if a[0] == "op" and a[1][0] == "custom" and a == b and d == 0]
+            nested = [1 for a, b, d in pairs if d > 0 and a[0] == "op" and a[1][0] == "custom"
+                      and (a[1][1]["ext"], a[1][1]["name"]) in defined]
+            return bool(changed) and bool(nested or kept)
         if case["kind"] == "hugr":
             changed = [o for o in obs["nodes"] if o["res"] != o["op"]]
             kept = [o for o in obs["nodes"] if o["op"][0] == "custom" and o["res"][0] == "custom"]
@@ -1576,6 +2256,31 @@ class C11(fw.Prop):
     def signature(self, case, obs, ctx):
         k = case["kind"]
         parts = []
+        if k == "whole":
+            defined = {(e, n) for e, x in obs["reg"] for n, _ in x["ops"]}
+            if not obs["self"]:
+                parts.append("raised" if "resolve_raised" in obs else "not-self")
+            if whole_skeleton(obs["h0"]) != whole_skeleton(obs["h1"]):
+                parts.append("frame")
+            else:
+                for a, b, d in whole_pairs(obs):
+                    is_def = a[0] == "op" and a[1][0] == "custom" and (a[1][1]["ext"], a[1][1]["name"]) in defined
+                    if d > 0:
+                        if a != b:                  # inside the HUGR of a function value: part of the frame
+                            parts.append("function-value-changed")
+                    elif is_def and b[0] == "op" and b[1][0] == "custom":
+                        parts.append("unresolved")
+                    elif not is_def and a[0] != "const" and a != b:
+                        parts.append("touched")
+            if obs["h2"] != obs["h1"]:
+                parts.append("idempotent")
+            if obs["doc0"] != obs["doc1"]:
+                blank = lambda x: json.loads(re.sub(r'"descr": "(?:[^"\\]|\\.)*"', '"descr": ""', json.dumps(x)))
+                if blank(obs["doc0"]) != blank(obs["doc1"]):      # more than descriptions differ
+                    parts.append("document")
+            if [[t is None for t in r] for r in obs["pt0"]] != [[t is None for t in r] for r in obs["pt1"]]:
+                parts.append("port-types")
+            return "resolve:whole:" + ("+".join(sorted(set(parts))) or "structure")
         if k == "hugr":
             for o in obs["nodes"]:
                 if o["res2"] != o["res"]:
@@ -1609,7 +2314,7 @@ class C11(fw.Prop):
 
     def shrink(self, case):
         # the labels of the path stream describe the generated expression, not its shrunk variants
-        for c in self._shrink({k: v for k, v in case.items() if k not in ("path", "where")}):
+        for c in self._shrink({k: v for k, v in case.items() if k not in ("path", "where", "respell", "twin_of")}):
             yield c
 
     def _shrink(self, case):
@@ -1631,6 +2336,15 @@ class C11(fw.Prop):
                 yield {**case, "a": s}
             if case["a"][0] == "type":
                 yield {**case, "kind": "ty", "t": case["a"][1]}
+        elif k == "whole":
+            if case.get("refill"):
+                yield {k2: v for k2, v in case.items() if k2 != "refill"}
+            hs = case.get("holes", [])
+            for i in range(len(hs)):
+                yield {**case, "holes": hs[:i] + hs[i + 1:]}
+            if "body" in case:
+                for b in smaller_bodies(case["body"]):
+                    yield {**case, "body": b}
         else:
             ns = case["nodes"]
             for i in range(len(ns)):
@@ -1655,6 +2369,11 @@ class C11(fw.Prop):
         out = []
         universe = [e for e in case["reg"] if "std" not in e]
         std_names = [e["std"] for e in case["reg"] if "std" in e]
+        if case["kind"] == "whole":
+            allstd = sorted(std_exts())
+            for _ in range(150):
+                out.append({**whole_body_case(rng, allstd), "reg": case["reg"]})
+            return out
         if case["kind"] == "ty":
             out += [{**case, "t": s} for s in subtrees(case["t"])]
         for _ in range(600):
@@ -1673,9 +2392,36 @@ class C11(fw.Prop):
         d = {"kind": {}, "registry_mode": {}, "via": {}, "opaque_nesting_depth": {}, "changed": 0, "raised": 0}
         for c, o in zip(cases, observations):
             d["kind"][c["kind"]] = d["kind"].get(c["kind"], 0) + 1
+            if "respell" in c:
+                rp = d.setdefault("respelled_pair_placed_at", {})
+                key = c["respell"].split(":")[0]
+                rp[key] = rp.get(key, 0) + 1
             m = c.get("mode", "corpus")
             d["registry_mode"][m] = d["registry_mode"].get(m, 0) + 1
             d["via"][c["via"]] = d["via"].get(c["via"], 0) + 1
+            if c["kind"] == "whole":
+                pairs = whole_pairs(o)
+                w = d.setdefault("whole", {"source": {}, "nodes": 0, "holes": 0, "function_value_depth": {}, "links": 0,
+                                           "order_links": 0, "changed_inside_function_values": 0, "resolved_top": 0, "with_metadata": 0})
+                src = "builder-program" if "seed" in c else "small-hugr-of-older-streams" if "twin_of" in c else "generated-body"
+                w["source"][src] = w["source"].get(src, 0) + 1
+                w["nodes"] += len(o["h0"]["nodes"])
+                w["holes"] += max([n["idx"] for n in o["h0"]["nodes"]] + [-1]) + 1 - len(o["h0"]["nodes"])
+                w["links"] += len(o["h0"]["links"])
+                w["order_links"] += sum(1 for l in o["h0"]["links"] if l[1] == -1)
+                w["with_metadata"] += sum(1 for n in o["h0"]["nodes"] if n["md"])
+                fd = str(max([dd for _, _, dd in pairs] + [0]))
+                w["function_value_depth"][fd] = w["function_value_depth"].get(fd, 0) + 1
+                defined = {(e, n) for e, x in o["reg"] for n, _ in x["ops"]}
+                w["changed_inside_function_values"] += sum(1 for a, b, dd in pairs if a != b and dd > 0)     # expected 0: frame
+                w["defined_ops_inside_function_values"] = w.get("defined_ops_inside_function_values", 0) + sum(
+                    1 for a, b, dd in pairs if dd > 0 and a[0] == "op" and a[1][0] == "custom"
+                    and (a[1][1]["ext"], a[1][1]["name"]) in defined)
+                w["resolved_top"] += sum(1 for a, b, dd in pairs if a != b and dd == 0 and a[0] == "op")
+                d["changed"] += o["h0"] != o["h1"]
+                nd = str(nest_depth([a for a, _, _ in pairs]))
+                d["opaque_nesting_depth"][nd] = d["opaque_nesting_depth"].get(nd, 0) + 1
+                continue
             inp = o["input"] if c["kind"] != "hugr" else [n["op"] for n in o["nodes"]]
             for t in c.get("sib", []):
                 t = t.split(":")[0] + (":" + t.split(":")[-1] if ":" in t else "")
